@@ -50,6 +50,7 @@ pub enum OpKind {
     ReadPartial,
     WarmUp,
     Create,
+    CoolDown,
 }
 
 impl OpKind {
@@ -62,6 +63,7 @@ impl OpKind {
             Self::ReadPartial => "read_partial",
             Self::WarmUp => "warm_up",
             Self::Create => "create",
+            Self::CoolDown => "cool_down",
         }
     }
     pub fn mutating(self) -> bool {
@@ -130,6 +132,14 @@ impl MemStore {
     }
     pub fn log(&self) -> Vec<Op> {
         self.0.clock.log.lock().unwrap().clone()
+    }
+    /// everything that was warmed up goes cold again (a later command cannot rely on an earlier one's warm-up)
+    pub fn cool_down(&self) {
+        self.0.warm.lock().unwrap().clear();
+        let c = &self.0.clock;
+        let mut log = c.log.lock().unwrap();
+        let seq = c.seq.fetch_add(1, Ordering::SeqCst);
+        log.push(Op { seq, proc_: 0, kind: OpKind::CoolDown, tpe: 0, id: Id::default(), len: 0, ok: true, data: None, overwrote: false, store: self.0.store_no });
     }
     pub fn log_len(&self) -> usize {
         self.0.clock.log.lock().unwrap().len()
